@@ -36,14 +36,15 @@ theorem pres_sound {m : Module} {o : Oracle} {w : SView} (href : refStruct m w.s
   exact evalBool_some hb
 
 /-- facts of the view a structure-typed accessor returns are facts of the enclosing view -/
-theorem sub_sound {m : Module} (hm : refModule m = true) {o : Oracle} {w : SView}
-    (href : refStruct m w.sd = true) (hwf : viewWF w = true) (hfacts : FactsOf m o w)
+theorem sub_sound {m : Module} {P : StructDef → Prop} (hm : Closed m P) {o : Oracle} {w : SView}
+    (hP : P w.sd) (hwf : viewWF w = true) (hfacts : FactsOf m o w)
     {x : String} {f : Field} (hf : w.sd.field x = some f)
     {start size : Expr} {name : String} {bits : Nat} {args : Exprs} {bo : ByteOrder}
     (hk : f.kind = .phys start size (.struct name bits args) bo) {w' : SView}
     (hsv : subView o m w f start size name bits args bo = some w') :
-    refStruct m w'.sd = true ∧ viewWF w' = true ∧
+    P w'.sd ∧ viewWF w' = true ∧
       ∀ inner outer, inner.under x = some outer → RFact m w' inner → RFact m w outer := by
+  have href := hm.ref _ hP
   have hff := ref_of_field href hf
   unfold refField at hff
   rw [hk] at hff
@@ -52,7 +53,7 @@ theorem sub_sound {m : Module} (hm : refModule m = true) {o : Oracle} {w : SView
   obtain ⟨sd', hfind, hcase⟩ := subView_inv hsv
   rw [hfind] at hchild
   simp only at hchild
-  have hrefsd' := ref_of_find hm hfind
+  have hrefsd' : P sd' := hm.step _ hP x f hf _ _ _ _ _ _ _ hk hfind
   rcases hcase with ⟨vs, st, hargs, hst, hw'⟩ | hw'
   · obtain ⟨off, s, hhas, hsize, hstart, hs0, hoff0, hsteq⟩ := physStorage_some hst
     have hlit : ∀ zl, size = .const (.int zl) → zl.toNat = s.toNat := by
@@ -76,12 +77,13 @@ theorem sub_sound {m : Module} (hm : refModule m = true) {o : Oracle} {w : SView
 /-- **Soundness of the generated-code model w.r.t. the reference**: at every fuel, everything
 `G` reports as known about any view of the fragment — a readable field's value, a presence, at
 any depth — is a fact of R. -/
-theorem G_sound (m : Module) (hm : refModule m = true) : ∀ n (w : SView), refStruct m w.sd = true →
+theorem G_sound (m : Module) {P : StructDef → Prop} (hm : Closed m P) : ∀ n (w : SView), P w.sd →
     viewWF w = true → FactsOf m (G m n) w
   | 0, w, _, _ => by constructor <;> intro p v h <;> simp [G, Oracle.bottom] at h
-  | n + 1, w, href, hwf => by
+  | n + 1, w, hP, hwf => by
     have ih := G_sound m hm n
-    have ihw := ih w href hwf
+    have ihw := ih w hP hwf
+    have href := hm.ref _ hP
     constructor
     · intro p v h
       cases p with
@@ -163,7 +165,7 @@ theorem G_sound (m : Module) (hm : refModule m = true) : ∀ n (w : SView), refS
                 | some w' =>
                   rw [hsv] at h
                   simp only at h
-                  obtain ⟨hr', hw', hlift⟩ := sub_sound hm href hwf ihw hf hk hsv
+                  obtain ⟨hr', hw', hlift⟩ := sub_sound hm hP hwf ihw hf hk hsv
                   exact hlift _ _ rfl ((ih w' hr' hw').1 _ _ h)
     · intro p b h
       cases p with
@@ -195,7 +197,7 @@ theorem G_sound (m : Module) (hm : refModule m = true) : ∀ n (w : SView), refS
                 | some w' =>
                   rw [hsv] at h
                   simp only at h
-                  obtain ⟨hr', hw', hlift⟩ := sub_sound hm href hwf ihw hf hk hsv
+                  obtain ⟨hr', hw', hlift⟩ := sub_sound hm hP hwf ihw hf hk hsv
                   exact hlift _ _ rfl ((ih w' hr' hw').2 _ _ h)
 
 end Emboss.ViewRef
